@@ -3,10 +3,11 @@ import os, re, shutil
 from common import run_fjv, workdir, pmap
 from gen import Gen
 from seqdiff import run_seq
-from seqprop import coverage, replay_file, corpus
+from seqprop import coverage, replay_file, corpus, audit
 
-LEVEL = "translation_validation"
-COQ_TARGETS = ()
+LEVEL = "proof"
+COQ_TARGETS = ("props/C08.vo",)
+THEOREMS = ["C08_read_your_writes", "C08_commit_complete", "C08_commit_sound", "C08_rollback_noop", "C08_tx_write_is_overlay_step"]
 RULE = ("in-transaction programs (<= 40 calls on overlapping keys and several keyspaces, every read method after every write, "
         "take/fetch_update/update_fetch with removing, constant and appending functions) on both transactional databases, all "
         "three endings (commit / rollback / drop), reads from outside before and after; compared between implementation, model "
@@ -55,6 +56,7 @@ def counter_run(args):
 
 def run(rep, tier, seed, build):
     n, nops = (300, 40) if tier == "quick" else (8000, 60)
+    audit(rep, "props/C08.v", THEOREMS, build)
     progs = corpus("C08") + programs(seed, n, nops)
     res = run_seq(rep, progs)
     cr = pmap(counter_run, [(seed + i, 2 + i % 3, 6) for i in range(4 if tier == "quick" else 40)], workers=4)
